@@ -284,7 +284,8 @@ def analyse(chk, cases, lines, parsed, mout):
         elif 'note' in mtoks:
             # the handshake moved while the slots were being probed, or the coordinator's sender failed: the observation is not a snapshot
             chk.violation({'kind': 'correspondence', 'correspondence': 'harness/route could not pin the case', 'case': line, 'detail': mtoks['note']}, no_input=True)
-        if nmig > 0 and any(t.split('=')[1] != PAIR[pin] for t in p['PH'].split()[1:]):
+        # (a re-sync that creates new tasks - failover, commit - lets those start under the already opened gates: no pin requirement there)
+        if nmig > 0 and ' sync ' not in line and any(t.split('=')[1] != PAIR[pin] for t in p['PH'].split()[1:]):
             chk.violation({'kind': 'correspondence', 'correspondence': 'harness/route could not reach the pinned phase pair', 'case': line, 'observed': p['PH']}, no_input=True)
         if bad:
             stats['monitor_failures'] += 1
